@@ -174,7 +174,7 @@ class TranslateNode(Node, TranslatableTag):
         message_context = block_scope.pop(self.message_context_var, None)
         if message_context:
             return (
-                str(message_context)
+                to_liquid_string(message_context)
                 if not isinstance(message_context, str)
                 else message_context
             )  # Just in case we get a Markupsafe object.
